@@ -7,8 +7,19 @@ CLAIMED["C13"] = (
  "Every code point 0..0x10FFFF is decided symbolically against a linear scan of the width table; set_cell_size / chop_cells / "
  "segment shaping are decided for all strings over a mixed-width alphabet up to a stated length and all sizes in range.",
  _NOTE, "DESIGN.md 5 C13")
+CLAIMED["C06"] = (
+ "bounded symbolic execution of Style.__add__/__eq__/__hash__ over all 13-bit attribute masks (symx, z3 BitVec + uninterpreted hash); CrossHair-enumerated parse/str round trips",
+ "Associativity, identity, right bias and hash consistency of every construction route are decided for ALL attribute masks and all "
+ "None/token combinations of colour, bgcolor, link; color(n) and rgb(r,g,b) parsing for all n, r, g, b symbolically; str/normalize "
+ "round trips for every style with at most two attributes and 10 colour spellings.",
+ _NOTE + " hash() is an uninterpreted function in the symbolic run (S5); counterexamples are replayed with the real hash.", "DESIGN.md 5 C06")
+CLAIMED["C18"] = (
+ "symbolic execution of Color.downgrade / Palette.match / get_ansi_codes with z3 (Float64 semantics for truecolor->256, BitVec for the weighted metric)",
+ "For all 2^24 colours: conversion to 16-colour palettes is in gamut, idempotent and picks an entry of minimal documented distance; all 256 indexed colours likewise; "
+ "SGR parameters for every colour kind. Truecolor->256 with exact IEEE semantics: greys in the quick tier, all 2^24 colours in the thorough tier.",
+ _NOTE + " L2: sqrt replaced by an order-isomorphic stub.", "DESIGN.md 5 C18")
 _PENDING = "check not built yet in this session (planned, DESIGN.md 5); not claimed until its obligations run"
-for _p in ["C01","C02","C03","C04","C05","C06","C07","C08","C09","C10","C12","C14","C15","C16","C18","C19","C20"]:
+for _p in ["C01","C02","C03","C04","C05","C07","C08","C09","C10","C12","C14","C15","C16","C19","C20"]:
     NA[_p] = _PENDING
 NA["C11"] = "quantifies over thread schedules of the real console/live code; no engine here can make the schedule a solver variable (DESIGN.md 6)"
 NA["C17"] = "decided by third-party Pygments lexers (C regex engine) and linecache; cannot be executed symbolically (DESIGN.md 6)"
